@@ -18,10 +18,12 @@ use std::collections::HashSet;
 /// let, internal define) captures a name bound by the outer `let*`. Understands lambda, let, let*,
 /// letrec, named let and internal define. Returns (bindings checked, problem).
 pub fn scope_check(forms: &[Sx]) -> (usize, Option<String>) {
-    let letstar = match forms.iter().find(|f| f.head() == Some("let*")) {
+    // the policy form: whichever sequential or recursive binder the skeleton uses
+    let letstar = match forms.iter().find(|f| matches!(f.head(), Some("let*" | "let" | "letrec" | "letrec*"))) {
         Some(l) => l,
-        None => return (0, Some("no let* form".into())),
+        None => return (0, Some("no binding form (let*, let, letrec, letrec*) in the program".into())),
     };
+    let top_kind = letstar.head().unwrap_or("let*").to_string();
     struct W {
         problem: Option<String>,
         bound_count: std::collections::HashMap<String, usize>,
@@ -106,14 +108,14 @@ pub fn scope_check(forms: &[Sx]) -> (usize, Option<String>) {
                             }
                             self.body(&l[2..], &inner);
                         }
-                        Some(k @ ("let" | "let*" | "letrec")) if l.len() >= 3 => {
+                        Some(k @ ("let" | "let*" | "letrec" | "letrec*")) if l.len() >= 3 => {
                             let (name, bi) = match &l[1] {
                                 Sx::Sym(n) if k == "let" && l.len() >= 4 => (Some(n.clone()), 2),
                                 _ => (None, 1),
                             };
                             let binds: Vec<&Sx> = l[bi].list().map(|b| b.iter().collect()).unwrap_or_default();
                             let mut inner = scope.clone();
-                            if k == "letrec" {
+                            if k == "letrec" || k == "letrec*" {
                                 for b in &binds {
                                     if let Some(n) = b.list().and_then(|p| p.first()).and_then(|n| n.sym()) {
                                         self.bind(n, &mut inner, false);
@@ -166,6 +168,7 @@ pub fn scope_check(forms: &[Sx]) -> (usize, Option<String>) {
     let outer: HashSet<String> = binds.iter().filter_map(|b| b.list().and_then(|p| p.first()).and_then(|n| n.sym()).map(|s| s.to_string())).collect();
     let mut w = W { problem: None, bound_count: std::collections::HashMap::new(), outer, bindings: 0 };
     let mut scope: Vec<String> = vec![];
+    let mut pairs: Vec<(String, &Sx)> = vec![];
     for b in binds {
         let pair = match b.list() {
             Some(p) if p.len() == 2 => p,
@@ -175,8 +178,32 @@ pub fn scope_check(forms: &[Sx]) -> (usize, Option<String>) {
             Some(n) => n.to_string(),
             None => return (w.bindings, Some("binding name is not a symbol".into())),
         };
-        w.walk(&pair[1], &scope);
-        w.bind(&name, &mut scope, true);
+        pairs.push((name, &pair[1]));
+    }
+    match top_kind.as_str() {
+        "let*" => {
+            for (name, init) in &pairs {
+                w.walk(init, &scope);
+                w.bind(name, &mut scope, true);
+            }
+        }
+        "let" => {
+            let empty: Vec<String> = vec![];
+            for (name, init) in &pairs {
+                w.walk(init, &empty);
+                w.bind(name, &mut scope, true);
+            }
+        }
+        _ => {
+            // letrec / letrec*: every name is in scope of every initialiser (an initialiser that
+            // *evaluates* a later name fails in the model run, which C11 also performs)
+            for (name, _) in &pairs {
+                w.bind(name, &mut scope, true);
+            }
+            for (_, init) in &pairs {
+                w.walk(init, &scope);
+            }
+        }
     }
     w.body(&l[2..], &scope);
     (w.bindings, w.problem)
@@ -199,6 +226,10 @@ mod tests {
         assert_eq!(chk("(let* ((%lf3:m (let () (define (%lf3:p %lf3:s) (streq? \"x\" %lf3:s)) %lf3:p))) (%lf3:m 1))"), None);
         assert_eq!(chk("(let* ((%lf3:m 1)) (let loop ((i 0)) (if (< i %lf3:m) (loop (+ i 1)) i)))"), None);
         assert!(chk("(let* ((%lf3:m (lambda (%lf3:s) 1)) (%lf3:n (lambda (%lf3:s) 1))) 1)").unwrap().contains("more than once"));
+        assert_eq!(chk("(letrec* ((%lf3:a 1) (%lf3:b (lambda () %lf3:a))) (%lf3:b))"), None);
+        assert_eq!(chk("(letrec ((%lf3:b (lambda () %lf3:a)) (%lf3:a 1)) (%lf3:b))"), None);
+        assert!(chk("(let ((%lf3:a 1) (%lf3:b %lf3:a)) 1)").unwrap().contains("before"));
+        assert!(chk("(letrec* ((%lf3:a 1) (%lf3:a 2)) 1)").unwrap().contains("more than once"));
     }
 }
 
@@ -235,9 +266,10 @@ fn check(e: &Expression, recs: Vec<FileRecord>, all_run: bool, case: &str, rep: 
     rep.evaluations += 1;
     let mreq = matcher_requests(e);
     let preq = printer_requests(e);
+    rep.max("max_requests_in_one_program", (mreq.len() + preq.len()) as u64);
     match validate(e, &crate::sut::opts_for(crate::rng::hash_str(case)), &mut |_| recs.clone()) {
         Tv::Skip(_) => rep.skipped_unspecified += 1,
-        Tv::Refused(m) => rep.violation("C11:refused", &format!("supported tree refused: {}", m), case, J::Null),
+        Tv::Refused(_) => rep.count("refused_by_compile"), // C12's subject
         Tv::Bad { kind, what, mut detail } => {
             detail.push("expression", J::s(render_default(e).unwrap_or_default().chars().take(600).collect::<String>()));
             rep.violation(&format!("C11:behaviour-{}", kind), &what, case, detail);
@@ -404,6 +436,6 @@ pub fn run(ctx: &Ctx, rep: &mut Report) {
     });
     if ctx.only.is_none() {
         rep.floor("sharing counts observed at run time", rep.get("sharing_counts_checked") > 100);
-        rep.floor("programs with many resources observed", rep.get_max("max_bindings_in_one_program") >= 30);
+        rep.floor("programs with many resources observed (>= 30 bindings or >= 12 distinct requests)", rep.get_max("max_bindings_in_one_program") >= 30 || rep.get_max("max_requests_in_one_program") >= 12);
     }
 }
